@@ -35,6 +35,9 @@ def run(ctx):
                       f"{r['trav']} ({r['form']} form) on neighbour map {r['map']} universe {r['universe']} ff_result={r['ff_result']} settings={r['settings']}: {KINDS[r['kind']]}; "
                       f"derived {r['got']}, reachable {r.get('reach')}, expected listing {r.get('want')}", replay=trav.replay_map(r))
     res.rule("REACH-SWEEP", n)
+    from sa import eff
+    eff.check_fwd(ctx, [("edgegraph.traversal.breadthfirst.bft", "ibft", {}), ("edgegraph.traversal.depthfirst.dft_recursive", "idft_recursive", {}),
+                        ("edgegraph.traversal.depthfirst.dft_iterative", "idft_iterative", {}), ("edgegraph.traversal.depthfirst.idft_recursive", "_dft_recur", {"start": "v"})])
     common.vacuity(res, "REACH-SWEEP", 3000)
     res.analysed = common.analysed(ctx, [f"{m}.{g}" for m, l, g, s in trav.TRAVS.values()] + [f"{m}.{l}" for m, l, g, s in trav.TRAVS.values()])
     res.explanation = "Bounded exhaustive abstract evaluation of the whole traversal functions (small-scope sweep); every mismatch is a concrete witness graph."
